@@ -24,11 +24,11 @@ int main() {
             out.put(nw::is_private_or_reserved_host(h) ? 1 : 0);
             return;
         }
-        if (md != 2) { out.put(-1); return; }
+        if (md != 2 && md != 3) { out.put(-1); return; }
         en::Config cfg{};
         cfg.identity_seed = 34u; cfg.relay_enabled = false; cfg.storage_persistent_enabled = false;
-        const i64 mo = in.next();
-        cfg.advertise_auto_mode = mo == 0 ? en::Config::AdvertiseAutoMode::On : mo == 1 ? en::Config::AdvertiseAutoMode::Warn : en::Config::AdvertiseAutoMode::Off;
+        auto mode_of = [](i64 mo) { return mo == 0 ? en::Config::AdvertiseAutoMode::On : mo == 1 ? en::Config::AdvertiseAutoMode::Warn : en::Config::AdvertiseAutoMode::Off; };
+        cfg.advertise_auto_mode = mode_of(in.next());
         cfg.advertise_allow_private = in.next() != 0;
         cfg.control_host = in.str();
         cfg.control_port = static_cast<std::uint16_t>(in.next());
@@ -40,7 +40,17 @@ int main() {
         const bool has_adv = in.next() != 0; const auto ah = in.str(); const auto apt = static_cast<std::uint16_t>(in.next());
         if (has_adv) { cfg.advertise_control_host = ah; if (apt != 0) cfg.advertise_control_port = apt; }
         in.next();   // the https-echo octet the checker predicted (the model's input)
-        const bool stun = in.next() != 0; const auto sa = in.str();
+        bool stun = in.next() != 0; auto sa = in.str();
+        i64 mo2 = 0, ap2 = 0; bool stun2 = false; std::string sa2;
+        if (md == 3) {
+            // entries a previous run left in the configuration as auto-discovered (non-manual): every refresh strips them
+            const i64 nst = in.next();
+            for (i64 i = 0; i < nst; ++i) {
+                en::Config::AdvertisedEndpoint e{}; e.host = in.str(); e.port = static_cast<std::uint16_t>(in.next()); e.manual = false; e.source = "stun";
+                cfg.advertised_endpoints.insert(cfg.advertised_endpoints.begin() + static_cast<std::ptrdiff_t>(i % (cfg.advertised_endpoints.size() + 1)), e);
+            }
+            mo2 = in.next(); ap2 = in.next(); stun2 = in.next() != 0; sa2 = in.str();
+        }
         nw::NatTraversalManager::TestHooks hooks{};
         hooks.stun_override = [&]() -> std::optional<nw::NatTraversalManager::StunQueryResult> {
             if (!stun) return std::nullopt;
@@ -50,27 +60,37 @@ int main() {
         en::PeerId self{}; self[0] = 0x34;
         {
             en::Node node(self, cfg);
-            node.start_transport(0);
-            const i64 tp = node.transport_port();
-            auto port = [&](i64 p) { return p == tp ? 0 : p; };
-            const auto& c = node.config();
-            out.put(static_cast<i64>(c.advertised_endpoints.size()));
-            for (const auto& e : c.advertised_endpoints) { out.bytes(e.host); out.put(port(e.port)); out.put(e.manual ? 1 : 0); }
-            out.put(static_cast<i64>(c.auto_advertise_candidates.size()));
-            for (const auto& cd : c.auto_advertise_candidates) {
-                out.bytes(cd.host); out.put(port(cd.port));
-                out.put(cd.via == "stun" ? 1 : cd.via == "https-echo" ? 2 : cd.via == "local-fallback" ? 3 : 9);
+            auto observe = [&](std::uint8_t tag) {
+                node.start_transport(0);
+                const i64 tp = node.transport_port();
+                auto port = [&](i64 p) { return p == tp ? 0 : p; };
+                const auto& c = node.config();
+                out.put(static_cast<i64>(c.advertised_endpoints.size()));
+                for (const auto& e : c.advertised_endpoints) { out.bytes(e.host); out.put(port(e.port)); out.put(e.manual ? 1 : 0); }
+                out.put(static_cast<i64>(c.auto_advertise_candidates.size()));
+                for (const auto& cd : c.auto_advertise_candidates) {
+                    out.bytes(cd.host); out.put(port(cd.port));
+                    out.put(cd.via == "stun" ? 1 : cd.via == "https-echo" ? 2 : cd.via == "local-fallback" ? 3 : 9);
+                }
+                out.put(c.auto_advertise_conflict ? 1 : 0);
+                en::ChunkId cid{}; cid[0] = 0x34; cid[1] = tag;
+                const auto manifest = node.store_chunk(cid, en::ChunkData{1, 2, 3}, std::chrono::seconds(600));
+                out.put(static_cast<i64>(manifest.discovery_hints.size()));
+                for (const auto& h : manifest.discovery_hints) {
+                    const auto [host, p] = split_endpoint(h.endpoint);
+                    out.bytes(host); out.put(port(p));
+                    out.put(h.scheme == "control" ? 1 : h.scheme == "transport" ? 0 : 9);
+                }
+                node.stop_transport();
+            };
+            observe(1);
+            if (md == 3) {
+                // the operator changes the settings and the transport is started again
+                node.config().advertise_auto_mode = mode_of(mo2);
+                node.config().advertise_allow_private = ap2 != 0;
+                stun = stun2; sa = sa2;
+                observe(2);
             }
-            out.put(c.auto_advertise_conflict ? 1 : 0);
-            en::ChunkId cid{}; cid[0] = 0x34;
-            const auto manifest = node.store_chunk(cid, en::ChunkData{1, 2, 3}, std::chrono::seconds(600));
-            out.put(static_cast<i64>(manifest.discovery_hints.size()));
-            for (const auto& h : manifest.discovery_hints) {
-                const auto [host, p] = split_endpoint(h.endpoint);
-                out.bytes(host); out.put(port(p));
-                out.put(h.scheme == "control" ? 1 : h.scheme == "transport" ? 0 : 9);
-            }
-            node.stop_transport();
         }
         nw::NatTraversalManager::set_test_hooks(nullptr);
     }, 60);
